@@ -2,6 +2,7 @@ package simk
 
 import (
 	"fmt"
+	"os"
 	"runtime"
 	"runtime/debug"
 	"sort"
@@ -416,7 +417,8 @@ func (s *Sim) GatedPos() (site string, key uint64, ok bool) {
 // FreeRun executes f with every scheduling point switched off (code runs on the Go scheduler).
 // Used for teardown such as VM.Shutdown, which takes locks inside sync.Once bodies where a parked
 // task would make other goroutines block on the Once's internal mutex, invisible to synctest.
-// No task may be parked holding a lock that f needs.
+// No task may be parked holding a lock that f needs, and no goroutine f waits for may be parked:
+// call Settle first, so that every background task has run (under the scheduler) to its idle state.
 func (s *Sim) FreeRun(f func()) {
 	prev := s.passAll.Swap(true)
 	defer s.passAll.Store(prev)
@@ -543,9 +545,14 @@ func (s *Sim) pickPlain(ws []*waiter, withClock bool) int {
 	}
 }
 
+// Progress counts scheduler iterations and run starts of this process; the worker's real-time
+// watchdog (outside every bubble) reads it to tell a stalled bubble from a slow one.
+var Progress atomic.Uint64
+
 func (s *Sim) loop() {
 	deadline := time.Now().Add(s.Horizon)
 	for {
+		Progress.Add(1)
 		synctest.Wait()
 		if s.OnStep != nil {
 			s.OnStep()
@@ -588,6 +595,20 @@ func (s *Sim) loop() {
 		}
 		i := s.pick(ws, withClock)
 		s.Steps++
+		if s.KeepLog && os.Getenv("VERIF_LOG_ENABLED") != "" {
+			var names []string
+			for _, w := range ws {
+				names = append(names, fmt.Sprintf("%s/%x", w.site, w.key))
+			}
+			s.mu.Lock()
+			var all []string
+			for _, w := range s.parked {
+				all = append(all, fmt.Sprintf("%s/%x#%d", w.site, w.key, w.ord))
+			}
+			sort.Strings(all)
+			s.Log = append(s.Log, fmt.Sprintf("%d enabled %v pick %d parked %v", s.Steps, names, i, all))
+			s.mu.Unlock()
+		}
 		if i >= len(ws) {
 			d := s.ClockSteps[s.C.Intn(len(s.ClockSteps))]
 			s.mu.Lock()
